@@ -106,6 +106,10 @@ type tunnel struct {
 	smallHello  bool
 	alpn        int  // sni: number of 200-byte ALPN names in the hello (0-40: hello up to ~9 KiB)
 	eofWithData bool // stub kind: the last client chunk is returned together with io.EOF
+	// long-lived tunnels: the writer of a direction goes quiet for 'pause' before
+	// segment number cpauseAt / upauseAt (-1: never)
+	cpauseAt, upauseAt int
+	pause              time.Duration
 }
 
 func genStream(t *rapid.T, label string, allowEmpty bool) []byte {
@@ -164,7 +168,7 @@ func genSegments(t *rapid.T, label string, total int) (sizes []int, yields []boo
 }
 
 func genTunnel(t *rapid.T, kinds []string) tunnel {
-	tn := tunnel{kind: rapid.SampledFrom(kinds).Draw(t, "kind")}
+	tn := tunnel{kind: rapid.SampledFrom(kinds).Draw(t, "kind"), cpauseAt: -1, upauseAt: -1}
 	tn.mode = rapid.SampledFrom([]string{"both/upstream-closes", "both/client-closes", "client-only", "upstream-only", "half-close"}).Draw(t, "mode")
 	tn.pxyproto = (tn.kind == "tcp" || tn.kind == "sni" || tn.kind == "tcp+tls") && rapid.Bool().Draw(t, "pxyproto")
 	switch tn.mode {
@@ -197,7 +201,11 @@ func genTunnel(t *rapid.T, kinds []string) tunnel {
 }
 
 func (tn tunnel) String() string {
-	return fmt.Sprintf("kind=%s pxyproto=%v mode=%s client=%dB segments=%v upstream=%dB segments=%v bytes-with-hello=%d alpn-names=%d", tn.kind, tn.pxyproto, tn.mode, len(tn.client), trunc(tn.cseg), len(tn.upstream), trunc(tn.useg), tn.withHello, tn.alpn)
+	s := fmt.Sprintf("kind=%s pxyproto=%v mode=%s client=%dB segments=%v upstream=%dB segments=%v bytes-with-hello=%d alpn-names=%d", tn.kind, tn.pxyproto, tn.mode, len(tn.client), trunc(tn.cseg), len(tn.upstream), trunc(tn.useg), tn.withHello, tn.alpn)
+	if tn.pause > 0 {
+		s += fmt.Sprintf(" quiet-for=%v before client segment %d / upstream segment %d", tn.pause, tn.cpauseAt, tn.upauseAt)
+	}
+	return s
 }
 
 func trunc(a []int) []int {
@@ -207,9 +215,12 @@ func trunc(a []int) []int {
 	return a
 }
 
-func writeSegments(c net.Conn, data []byte, sizes []int, yields []bool) error {
+func writeSegments(c net.Conn, data []byte, sizes []int, yields []bool, pauseAt int, pause time.Duration) error {
 	off := 0
 	for i, s := range sizes {
+		if i == pauseAt && pause > 0 {
+			time.Sleep(pause)
+		}
 		if _, err := c.Write(data[off : off+s]); err != nil {
 			return err
 		}
@@ -303,7 +314,7 @@ func runTunnel(tn tunnel) (res result) {
 			var wg sync.WaitGroup
 			wg.Add(1)
 			go func() { defer wg.Done(); readN(wantUp) }()
-			if err := writeSegments(c, tn.upstream, tn.useg, tn.uyield); err != nil {
+			if err := writeSegments(c, tn.upstream, tn.useg, tn.uyield, tn.upauseAt, tn.pause); err != nil {
 				fail("upstream write: %v", err)
 			}
 			wg.Wait() // everything received: now the upstream finishes first
@@ -311,7 +322,7 @@ func runTunnel(tn tunnel) (res result) {
 			var wg sync.WaitGroup
 			wg.Add(1)
 			go func() { defer wg.Done(); readEOF() }()
-			if err := writeSegments(c, tn.upstream, tn.useg, tn.uyield); err != nil {
+			if err := writeSegments(c, tn.upstream, tn.useg, tn.uyield, tn.upauseAt, tn.pause); err != nil {
 				fail("upstream write: %v", err)
 			}
 			wg.Wait()
@@ -321,12 +332,12 @@ func runTunnel(tn tunnel) (res result) {
 			if tn.kind == "sni" {
 				readN(wantUp) // the hello has to arrive before anything is sent back
 			}
-			if err := writeSegments(c, tn.upstream, tn.useg, tn.uyield); err != nil {
+			if err := writeSegments(c, tn.upstream, tn.useg, tn.uyield, tn.upauseAt, tn.pause); err != nil {
 				fail("upstream write: %v", err)
 			}
 		case "half-close":
 			readEOF()
-			if err := writeSegments(c, tn.upstream, tn.useg, tn.uyield); err != nil {
+			if err := writeSegments(c, tn.upstream, tn.useg, tn.uyield, tn.upauseAt, tn.pause); err != nil {
 				fail("upstream write after the client's half-close: %v", err)
 			}
 		}
@@ -441,7 +452,7 @@ func runTunnel(tn tunnel) (res result) {
 			}
 			data = rest
 		}
-		return writeSegments(c, data, sizes, yields)
+		return writeSegments(c, data, sizes, yields, tn.cpauseAt, tn.pause)
 	}
 	var got bytes.Buffer
 	switch tn.mode {
@@ -601,6 +612,81 @@ func TestC09Tunnels(t *testing.T) {
 		classify(tn)
 	})
 }
+
+// TestC09LongLived: tunnels that stay open, with a quiet period in the middle
+// of a direction, longer than any handshake timer of the proxies (1 s in the
+// websocket path).  A batch of generated tunnels runs concurrently per case.
+func TestC09LongLived(t *testing.T) {
+	hx.Check(t, hx.Scale(3, 24), func(t *rapid.T) {
+		n := hx.Pick(10, 16)
+		tns := make([]tunnel, n)
+		for i := range tns {
+			tn := genTunnel(t, []string{"ws", "tcp", "sni", "dynamic", "tcp+tls"})
+			for tn.mode == "half-close" || tn.mode == "upstream-only" && tn.kind == "sni" {
+				tn.mode = rapid.SampledFrom([]string{"both/upstream-closes", "both/client-closes", "client-only", "upstream-only"}).Draw(t, "mode2")
+				if tn.mode == "upstream-only" {
+					tn.client, tn.cseg, tn.cyield, tn.withHello = nil, nil, nil, 0
+					if len(tn.upstream) == 0 {
+						tn.upstream, tn.useg, tn.uyield = []byte{1, 2, 3}, []int{3}, []bool{false}
+					}
+				}
+				if tn.mode == "client-only" {
+					tn.upstream, tn.useg, tn.uyield = nil, nil, nil
+					if len(tn.client) == 0 {
+						tn.client, tn.cseg, tn.cyield = []byte{1, 2, 3}, []int{3}, []bool{false}
+					}
+				}
+			}
+			tn.pause = time.Duration(rapid.SampledFrom([]int{1200, 1050, 1600, 2500}).Draw(t, "quietms")) * time.Millisecond
+			if len(tn.cseg) > 0 {
+				tn.cpauseAt = rapid.IntRange(0, len(tn.cseg)-1).Draw(t, "cpauseat")
+			}
+			if len(tn.useg) > 0 && rapid.Bool().Draw(t, "upause") {
+				tn.upauseAt = rapid.IntRange(0, len(tn.useg)-1).Draw(t, "upauseat")
+			}
+			if tn.cpauseAt < 0 && tn.upauseAt < 0 {
+				tn.upauseAt = 0
+			}
+			tns[i] = tn
+		}
+		msgs := make([]string, n)
+		var wg sync.WaitGroup
+		for i := range tns {
+			wg.Add(1)
+			go func(i int) {
+				defer wg.Done()
+				defer func() {
+					if r := recover(); r != nil {
+						if _, ok := r.(stopCheck); !ok {
+							panic(r)
+						}
+					}
+				}()
+				checkTunnel(func(f string, a ...any) { msgs[i] = fmt.Sprintf(f, a...); panic(stopCheck{}) }, tns[i])
+			}(i)
+		}
+		wg.Wait()
+		hx.EvalN(n)
+		for i, m := range msgs {
+			if m != "" {
+				t.Fatalf("long-lived tunnel %d of %d: %s", i, n, m)
+			}
+			hx.NonTrivial("long:" + tns[i].String() + fmt.Sprint(len(tns[i].client), len(tns[i].upstream)))
+			hx.Class("long-lived:" + tns[i].kind)
+			if tns[i].cpauseAt >= 0 {
+				hx.Class("client-quiet>1s-then-sends")
+			}
+			if tns[i].upauseAt >= 0 {
+				hx.Class("upstream-quiet>1s-then-sends")
+			}
+		}
+		if hx.WantSample("long-lived") {
+			hx.Sample("long-lived", tns[0].String())
+		}
+	})
+}
+
+type stopCheck struct{}
 
 // TestC09KnownHalfClose re-confirms the recorded finding on the current tree
 // and prints the KNOWN-FINDING line only if it is still there.
